@@ -284,6 +284,22 @@ def check_never_compared(old_src, leafvals, approved):
     return v == before
 
 
+def check_eq_positional_call(c0, c1, x0, x1, approved):
+    """a dataclass written with positional arguments: fix is reported exactly when the comparison fails"""
+    W.ns = {"c0": c0, "c1": c1}
+    ns = dict(SUPPORT_NS)
+    new = ns["P"](a=x0, b=x1)
+    r, v = run_site("==", "P(c0, c1)", [new], approved)
+    got = set(r.categories)
+    PathLog.record(f"eqpos{sorted(approved)}{sorted(got)}{r.text}", nontrivial=bool(got), sample={"op": "P(a=x0, b=x1) == snapshot(P(c0, c1))", "approved": sorted(approved), "reported": sorted(got), "rewritten": world.snapshot_arg_sources(r.text)})
+    wrong = not (x0 == c0 and x1 == c1)
+    if ("fix" in got) != wrong:
+        return False
+    if v is MISSING:
+        return False
+    return v == (new if ("fix" in approved and wrong) else ns["P"](c0, c1))
+
+
 GLB = {k: v for k, v in globals().items() if k.startswith("check_")}
 GLB["__name__"] = "harness.c05"
 
@@ -362,6 +378,15 @@ def conditions(tier):
     conds.append(Cond("le_old_m2_twin", tw, timeout=60, twin=True))
     tw = mkfn("gi_twin", [("c0", "int"), ("x0", "int")], "return check_getitem((1,), [c0], (1,), [x0], {'fix'})", GLB, post="not _")
     conds.append(Cond("gi_twin", tw, timeout=60, twin=True))
+    import os
+
+    if "C05-positional-dataclass-arguments" not in os.environ.get("VERIF_KF_ACTIVE", "").split(","):
+        # (open known finding: region = a dataclass snapshot written with positional arguments; witness replayed by the runner)
+        for sub in ({"fix"}, set(), set(CATS)):
+            name = f"eq_positional_call_{subset_name(sub)}"
+            body = f"return check_eq_positional_call(c0, c1, x0, x1, {sub!r})"
+            conds.append(Cond(name, mkfn(name, [(n, "int") for n in ("c0", "c1", "x0", "x1")], body, GLB), timeout=600, group="eq-positional",
+                              bounds=f"`P(a=x0, b=x1) == snapshot(P(c0, c1))` (dataclass written with positional arguments), approved {sorted(sub)}"))
     return conds
 
 
